@@ -6,6 +6,8 @@
    The formulas are tied to the real _divisions() methods by the T-LAYER "divisions" correspondence of the C06 check.
    The *_refuted theorems record what the unfixed code did (defects D8, D10, D20, D35, D36 and seed C06_a). *)
 From DX Require Import Base Plan PlanProofs Repart RepartCount Divisions DivisionsProofs DivisionsExtra GeneratedClassTable ClassTableChecks ClassTableDivisions ClassTableLengthFlags.
+From DX Require Import MinMax MinMaxProofs PySeq GeneratedSource SourceChecks.
+Local Open Scope nat_scope.
 
 (* the executable test used by the harness on computed partitions means exactly the property *)
 Theorem C06_truthfulb_spec : forall divs parts, truthfulb divs parts = true <-> truthful divs parts.
@@ -133,3 +135,82 @@ Print Assumptions C06_repartition_counts.
 Theorem C06_length_flags_reviewed : length_flags_b = true.
 Proof. exact length_flags_reviewed. Qed.
 Print Assumptions C06_length_flags_reviewed.
+
+(* ---- T-SRC: the same theorems about the method bodies translated from the current source (GeneratedSource.v is rewritten
+   from /repo on every run by harness/gen_source.py; SourceChecks.v proves each translated body equal to the model) ---- *)
+Theorem C06_src_partitions_truthful : forall divs parts (sel : list nat) d',
+  truthful divs parts -> (forall p, In p sel -> p < length parts) -> sel <> [] ->
+  src_Partitions_divisions divs (zs sel) = Known d' -> truthful d' (select_parts parts sel).
+Proof. exact src_partitions_truthful. Qed.
+Print Assumptions C06_src_partitions_truthful.
+
+Theorem C06_src_partitions_filtered_truthful : forall full parts (sel : list nat) d',
+  truthful full parts -> (forall p, In p sel -> p < length parts) -> sel <> [] ->
+  src_PartitionsFiltered_divisions full true (zs sel) = Known d' -> truthful d' (select_parts parts sel).
+Proof. exact src_partitions_filtered_truthful. Qed.
+Print Assumptions C06_src_partitions_filtered_truthful.
+
+Theorem C06_src_partitions_unknown_count : forall divs (sel : list nat) n,
+  src_Partitions_divisions divs (zs sel) = Unknown n -> n = (Z.of_nat (length sel) + 1)%Z.
+Proof. exact src_partitions_unknown_count. Qed.
+Print Assumptions C06_src_partitions_unknown_count.
+
+Theorem C06_src_fused_truthful : forall divs parts parts_sel step,
+  truthful divs parts -> strictly_increasingb parts_sel = true ->
+  (forall p, In p parts_sel -> p < length parts) -> 1 <= step -> parts_sel <> [] ->
+  truthful (src_FusedIO_divisions divs (map zs (fusion_buckets parts_sel step)))
+           (fused_parts parts (fusion_buckets parts_sel step)).
+Proof. exact src_fused_truthful. Qed.
+Print Assumptions C06_src_fused_truthful.
+
+Theorem C06_src_fewer_truthful : forall divs parts bs,
+  truthful divs parts -> DivisionsProofs.chain bs (length parts) -> interior_below bs (length parts) ->
+  truthful (src_RepartitionToFewer_divisions divs (zs bs)) (fewer_parts parts bs).
+Proof. exact src_fewer_truthful. Qed.
+Print Assumptions C06_src_fewer_truthful.
+
+Theorem C06_src_head_truthful : forall divs parts k nrows,
+  truthful divs parts -> k <= length parts ->
+  truthful (src_Head_divisions divs (Z.of_nat k)) (head_parts parts k nrows).
+Proof. exact src_head_truthful. Qed.
+Print Assumptions C06_src_head_truthful.
+
+Theorem C06_src_blockwise_head_truthful : forall divs parts (sel : list Z) nrows,
+  truthful divs parts -> length sel <= length parts ->
+  truthful (src_BlockwiseHead_divisions divs sel) (bhead_parts parts (length sel) nrows).
+Proof. exact src_blockwise_head_truthful. Qed.
+Print Assumptions C06_src_blockwise_head_truthful.
+
+Theorem C06_src_tail_truthful : forall divs parts nrows,
+  truthful divs parts -> parts <> [] -> truthful (src_Tail_divisions divs) (tail_parts parts nrows).
+Proof. exact src_tail_truthful. Qed.
+Print Assumptions C06_src_tail_truthful.
+
+Theorem C06_src_concat_truthful : forall ds pss,
+  Forall2 truthful ds pss -> ds <> [] -> src_Concat_monotonic_divisions ds true = true ->
+  truthful (src_Concat_divisions_monotonic ds) (concat_parts pss).
+Proof. exact src_concat_truthful. Qed.
+Print Assumptions C06_src_concat_truthful.
+
+(* ---- divisions derived from (min, max) statistics: presorted set_index / sort_values, parquet statistics ---- *)
+Theorem C06_presorted_truthful : forall l parts d,
+  stats_ok l parts -> wf_stats l -> presorted_divisions l = Some d -> truthful d parts.
+Proof. exact presorted_truthful. Qed.
+Print Assumptions C06_presorted_truthful.
+
+Theorem C06_presorted_touching_refuted : exists l parts d,
+  stats_ok l parts /\ wf_stats l /\ presorted_divisions_touching l = Some d /\ ~ truthful d parts.
+Proof. exact presorted_touching_refuted. Qed.
+Print Assumptions C06_presorted_touching_refuted.
+
+Theorem C06_parquet_statistics_truthful : forall l parts d p,
+  stats_ok l parts -> wf_stats l -> stats_divisions l = Some (d, p) ->
+  truthful d (reindex parts p []) /\ Permutation.Permutation p (seq 0 (length parts)).
+Proof. exact stats_truthful. Qed.
+Print Assumptions C06_parquet_statistics_truthful.
+
+Theorem C06_parquet_statistics_old_refuted : exists l parts,
+  stats_ok l parts /\ wf_stats l /\
+  ~ truthful (fst (stats_divisions_old l)) (reindex parts (snd (stats_divisions_old l)) []).
+Proof. exact stats_old_refuted. Qed.
+Print Assumptions C06_parquet_statistics_old_refuted.
